@@ -248,5 +248,12 @@ def controls(chk):
     got = {(o["rule"], o["function"]) for o in sub.obl if o["verdict"] == "VIOLATED"}
     chk.control("K6", ("K6", "ctl_unchecked") in got, "on-disk size used as read length without comparison to the buffer size")
     chk.control("K6-field", ("K6", "ctl_wrong_bound") in got, "length compared with an unrelated quantity")
-    chk.control("silent-on-good", not any(fn in ("ctl_checked", "ctl_alloc_fill", "ctl_clamped") for (_r, fn) in got),
+    chk.control("silent-on-good", not any(fn in ("ctl_checked", "ctl_alloc_fill", "ctl_clamped", "ctl_grow_good") for (_r, fn) in got),
                 "bounded sinks must not be reported")
+    chk.control("K6-growth", ("K6", "ctl_grow_bad") in got, "buffer grown until the new entry alone fits, ignoring what is stored already")
+    from ..dangling import run_dangling
+    sub2 = Check("C05-control", chk.tier)
+    run_dangling(sub2, prog, "K8-dangling", lambda src: True)
+    got2 = {(o["rule"], o["function"]) for o in sub2.obl if o["verdict"] == "VIOLATED"}
+    chk.control("K8-dangling", ("K8-dangling", "ctl_dangling") in got2, "freed out-parameter left in place on the error return")
+    chk.control("K8-dangling/silent", ("K8-dangling", "ctl_not_dangling") not in got2, "cleared out-parameter must not be reported")
